@@ -275,6 +275,36 @@ func runC02(x *xctx) *violation {
 			name, data = c.name, c.data
 		}
 	}
+	if data == nil && t.Bool(K, 20) {
+		// A seeded legacy binary CPU profile (profilez): 64-bit little-endian
+		// words, a small address universe so that repeated frames and shared
+		// addresses are the norm, and a /proc/maps style trailer.
+		var buf bytes.Buffer
+		w64 := func(v uint64) {
+			var b [8]byte
+			for i := 0; i < 8; i++ {
+				b[i] = byte(v >> (8 * i))
+			}
+			buf.Write(b[:])
+		}
+		for _, v := range []uint64{0, 3, 0, uint64(1000 * (1 + t.Choose(K, 10))), 0} {
+			w64(v)
+		}
+		ns := 1 + t.Choose(K, 6)
+		for i := 0; i < ns; i++ {
+			w64(uint64(1 + t.Choose(K, 50)))
+			depth := 1 + t.Choose(K, 5)
+			w64(uint64(depth))
+			for d := 0; d < depth; d++ {
+				w64(0x400000 + 0x10*uint64(1+t.Choose(K, 4)))
+			}
+		}
+		for _, v := range []uint64{0, 1, 0} {
+			w64(v)
+		}
+		buf.WriteString("00400000-00500000 r-xp 00000000 00:00 0          /bin/prog\n")
+		name, data = "generated.profilez", buf.Bytes()
+	}
 	if data == nil {
 		p := genProfile(t, genOpts{labels: true, inlines: true, negative: true, odd: t.Bool(K, 30), maxFuncs: 4, maxSamples: 4})
 		var buf bytes.Buffer
